@@ -315,8 +315,10 @@ static void c04_c02_case(const TypeCtx& c, uint64_t ci, bool is_c02) {
   Val v = gen_value(c, ci, 100);
   Obj o(c.t); o.set(v); Val v0 = o.val();
   // handles: the k-th handle is referenced as k; the resolver maps reference k to value 1000+k (deterministic, independent of the writer)
-  Enc e; std::vector<int64_t> refs; for (int i = 0; i < 64; i++) refs.push_back(i); e.refs = &refs; RefEncode(c.sch, v0, e);
-  std::vector<int64_t> pushed; for (int i = 0; i < 64; i++) pushed.push_back(1000 + i); Resolver rs{&pushed};
+  // (the table is longer than any generated value has handles: a shorter one made the "known-valid" encoding of a
+  //  thorough-tier vector<Handle> invalid under the resolver -- a false alarm of the harness, see DESIGN 9.4)
+  Enc e; std::vector<int64_t> refs; for (int i = 0; i < 8192; i++) refs.push_back(i); e.refs = &refs; RefEncode(c.sch, v0, e);
+  std::vector<int64_t> pushed; for (int i = 0; i < 8192; i++) pushed.push_back(1000 + i); Resolver rs{&pushed};
   auto ref_resolver = [&](int64_t ref, int64_t* val) -> int { if (ref < 0) { *val = -1; return 0; } if ((size_t)ref >= pushed.size()) return (int)nop::ErrorStatus::InvalidHandleReference; *val = pushed[(size_t)ref]; return 0; };
   std::vector<Mut> muts; build_mutations(c, v0, e, ci, args().thorough(), muts);
   { Mut m; m.bytes = e.out; m.kind = MutKind::Noise; m.desc = "valid"; muts.push_back(m); }
@@ -327,7 +329,8 @@ static void c04_c02_case(const TypeCtx& c, uint64_t ci, bool is_c02) {
   // a known-valid encoding used for the re-read post-condition
   Val vv = gen_value(dc, ci, 555); Obj ov(dc.t); ov.set(vv); Val vv0 = canoned(dc.sch, ov.val()); Enc ev; ev.refs = &refs; RefEncode(dc.sch, ov.val(), ev);
   // expected value of vv0 when read through the resolver
-  Val vv_expect; { Val t; RefDecode(dc.sch, ev.out.data(), ev.out.size(), &t, ref_resolver); vv_expect = canoned(dc.sch, t); }
+  Val vv_expect; bool vv_valid; { Val t; vv_valid = RefDecode(dc.sch, ev.out.data(), ev.out.size(), &t, ref_resolver).cat == Cat::OK; vv_expect = canoned(dc.sch, t); }
+  if (!vv_valid) rep().count("reread_encoding_not_valid_under_reference_skipped");
   size_t mi = 0;
   for (auto& m : muts) {
     mi++;
@@ -358,7 +361,7 @@ static void c04_c02_case(const TypeCtx& c, uint64_t ci, bool is_c02) {
         if (!d.ok && !defined_error(d.err)) vv2(fmt("C02:undefined-status:%s", tkey(dc).c_str()), fmt("Read returned an undefined error status %d", (int)d.err), det);
         if (d.consumed > m.bytes.size()) vv2(fmt("C02:overconsumed:%s:%s", rname(rk), tkey(dc).c_str()), fmt("reader position %zu beyond the %zu input bytes", d.consumed, m.bytes.size()), det);
         // post-conditions: inspect, re-read a valid encoding into the same object, destroy
-        if (!d.ok && !(dc.t->flags & F_AMBIGUOUS)) {
+        if (!d.ok && vv_valid && !(dc.t->flags & F_AMBIGUOUS)) {
           (void)dst.val();
           DecodeOutcome d2 = decode_with(dc, (dc.t->flags & F_HANDLE) ? R_LOG : R_PEDANTIC, ev.out, SIZE_MAX, dst, &rs, 0);
           if (!d2.ok) vv2(fmt("C02:reread-failed:%s", tkey(dc).c_str()), fmt("a valid encoding no longer reads into the object left by a failed read ('%s')", errname(d2.err)), det);
@@ -734,6 +737,19 @@ int vf::engine_main() {
   for (auto& c : g_types) { std::string n = c.t->name; size_t p = n.find('<'); std::string base = p == std::string::npos ? n : n.substr(0, p); for (auto& d : g_types) { std::string dn = d.t->name; size_t q = dn.find('<'); std::string dbase = q == std::string::npos ? dn : dn.substr(0, q); if (dbase == base + "_R") c.alt = (int)d.idx; } }
   rep().infos["corpus_types"] = std::to_string(g_types.size());
   const std::string P = a.prop; bool th = a.thorough();
+  // --dump-corpus DIR: seed corpus for the libFuzzer target (same type order and input layout as engines/codec/fuzz.cpp)
+  for (size_t i = 0; i + 1 < a.extra.size(); i++) if (a.extra[i] == "--dump-corpus") {
+    std::vector<const TypeCtx*> ft; for (auto& c : g_types) if (!(c.t->flags & (F_NOHOSTILE | F_UNBOUNDED | F_AMBIGUOUS))) ft.push_back(&c);
+    size_t nfiles = 0;
+    for (size_t ti = 0; ti < ft.size(); ti++) for (int ci = 0; ci < 6; ci++) {
+      const TypeCtx& c = *ft[ti]; Val v = gen_value(c, (uint64_t)ci, 100); Obj o(c.t); o.set(v); Enc e; std::vector<int64_t> refs; for (int k = 0; k < 64; k++) refs.push_back(k); e.refs = &refs; RefEncode(c.sch, o.val(), e);
+      if (e.out.size() > 400) continue;
+      Bytes file = {(uint8_t)(ti & 0xff), (uint8_t)(ti >> 8), (uint8_t)ci}; file.insert(file.end(), e.out.begin(), e.out.end());
+      FILE* f = fopen(fmt("%s/seed-%zu-%d", a.extra[i + 1].c_str(), ti, ci).c_str(), "wb"); if (f) { fwrite(file.data(), 1, file.size(), f); fclose(f); nfiles++; }
+    }
+    printf("dumped %zu seed inputs for %zu types\n", nfiles, ft.size());
+    return 0;
+  }
   int ncases = 0;
   // thorough sizes are set so that each check stays within roughly 10-30 minutes on 16 cores (the thorough corpus is twice as large and built at -O1)
   if (P == "C01") ncases = th ? 400 : 64; else if (P == "C03") ncases = th ? 3000 : 300; else if (P == "C04") ncases = th ? 48 : 8; else if (P == "C02") ncases = th ? 32 : 4;
